@@ -57,13 +57,42 @@ class Sub:
         self.tiers = tiers
 
     def execute(self, case):
-        if self.isolate:
-            return env.isolated(self.run_case, case)
-        env.reset_case_state()
         try:
-            return self.run_case(case)
-        finally:
-            env.restore_stderr()
+            if self.isolate:
+                return env.isolated(self.run_case, case)
+            env.reset_case_state()
+            try:
+                return self.run_case(case)
+            finally:
+                env.restore_stderr()
+        except Exception as ex:
+            v = dut_crash_verdict(ex)
+            if v is None:
+                raise
+            return v
+
+
+def dut_crash_verdict(ex):
+    """An exception no check handled.  If the code that raised it - the innermost frame that is neither a library
+    (site-packages / stdlib) nor harness code - belongs to the tree under test, the design under test crashed on a case
+    that the unchanged tree elaborates and runs (otherwise this very check would end as a harness error there): reported as
+    a violation.  Anything raised by harness code stays a harness error."""
+    import traceback
+    repo = os.path.realpath(env.REPO) + os.sep
+    verif = os.path.realpath(env.VERIF) + os.sep
+    frames = traceback.extract_tb(ex.__traceback__)
+    for fr in reversed(frames):
+        fn = os.path.realpath(fr.filename)
+        if "site-packages" in fn or fn.startswith(os.path.realpath(os.path.dirname(os.__file__)) + os.sep):
+            continue
+        if fn.startswith(repo):
+            where = "%s:%s" % (os.path.relpath(fn, repo), fr.name)
+            return bad("dut-crash", "the code under test raised %s: %s at %s line %d (%s)" %
+                       (type(ex).__name__, str(ex)[:300], where, fr.lineno, (fr.line or "").strip()[:160]), key="dut-crash:" + where)
+        if fn.startswith(verif):
+            return None
+        return None
+    return None
 
 
 def canon(case):
